@@ -124,7 +124,22 @@ func (cfg *Config) applyDenylist() {
 }
 
 func (cfg *Config) applyOverrides() error {
-	for name, value := range cfg.overrides {
+	// Apply overrides in a fixed order, shorter names first: an override of a
+	// module member is then applied to the module that an override of the
+	// module itself installed, independent of map iteration order.
+	names := make([]string, 0, len(cfg.overrides))
+	for name := range cfg.overrides {
+		names = append(names, name)
+	}
+	sort.Slice(names, func(i, j int) bool {
+		ni, nj := strings.Count(names[i], "."), strings.Count(names[j], ".")
+		if ni != nj {
+			return ni < nj
+		}
+		return names[i] < names[j]
+	})
+	for _, name := range names {
+		value := cfg.overrides[name]
 		parts := strings.Split(name, ".")
 		if len(parts) == 1 {
 			cfg.globals[name] = value
